@@ -352,7 +352,7 @@ Lemma op_ok2 s m k f : Qr2 (m :: k) f s ->
   | ActEnter s' f' => True /\ (is_handler f = true -> is_handler f' = true -> Qr2 k f' s')
   end.
 Proof.
-  intros H. destruct f as [| | | | |wk| |re]; cbn [Qr2] in H; try contradiction.
+  intros H. destruct f as [| | | | | |wk| |re]; cbn [Qr2] in H; try contradiction.
   - (* FRead: the plan is empty *) destruct H as [H _]. discriminate H.
   - (* FHandler *)
     destruct H as [HU [Ht|[[p [sz Ht]]|Ht]]]; inversion Ht; subst.
@@ -423,7 +423,7 @@ Lemma throw_ok2 s x f : Rx2 x f s ->
   | Finished s' _ => True
   end.
 Proof.
-  intros H. destruct f as [| | | | |wk| |re]; cbn [Rx2] in H; try contradiction; cbn [throw].
+  intros H. destruct f as [| | | | | |wk| |re]; cbn [Rx2] in H; try contradiction; cbn [throw].
   - (* FHandler *)
     destruct H as [[U1 U2] Hx]. cbn [kill set_exec].
     destruct Hx as [->|[->|[-> Hd]]].
@@ -452,7 +452,7 @@ Lemma end_ok2 s f : Qr2 [] f s ->
   | ERaise s' x => Rx2 x f s'
   end.
 Proof.
-  intros H. destruct f as [| | | | |wk| |re]; cbn [Qr2] in H; try contradiction; cbn [end_plan].
+  intros H. destruct f as [| | | | | |wk| |re]; cbn [Qr2] in H; try contradiction; cbn [end_plan].
   - (* FRead: the queued COM_CHANGE_USER is dispatched *)
     destruct H as [_ [U2 [q Hq]]]. rewrite Hq. cbn [handler]. cbn [Qr2]. split; [split; [reflexivity|exact U2]|]. right. right. reflexivity.
   - destruct H as [_ [H|[[p [sz H]]|H]]]; discriminate H.
@@ -502,7 +502,7 @@ Proof.
   { intros s' E1 E2 E3. apply still2. unfold good2', good2. rewrite E1, Ec.
     assert (HU' : U s -> U s') by (intros [U1 U2]; split; [rewrite E2; exact U1|rewrite E3; exact U2]).
     destruct f; cbn [Qs2] in *; try contradiction; try exact G; (destruct G as [HU G']; split; [apply HU'; exact HU|exact G']). }
-  destruct f as [| | | | |wk| |re]; cbn [Qs2] in G; try contradiction.
+  destruct f as [| | | | | |wk| |re]; cbn [Qs2] in G; try contradiction.
   - (* FHandler: the ERR of an aborted exchange is draining; then AuthenticationFailed is raised *)
     destruct G as [HU [-> ->]].
     destruct e as [c|okh dep|d|d| |hdr| |o| | | | | |kd|kd]; try (apply Gs; reflexivity).
